@@ -15,6 +15,51 @@ CLAIMED = {
                 text='Theorems C09_total (any path/bytes/tree satisfying the listed child-existence facts yields a graph: these are the only abort sites of the builder model), C09_location and C09_quadratic (visits + bytes copied + the single matching pass <= 8(|tree|+|file|)^2). Mutated and raw-byte inputs are run through the real builder (panic = violation) and the model (Panic outcomes must coincide); CPU time on the k-methods x c-calls family at n, 3n, 9n is measured.',
                 note='partial: tree-sitter C parser (memory safety, its own running time) and Go runtime stack depth are outside the model; the work count is a hand-abstracted cost model tied to the code only by the timing runs',
                 ref='DESIGN.md §5 C09'),
+    'C01': dict(technique='Coq refinement proof (predicate expansion by substitution implements call-by-binding; results = spec results) + model/implementation correspondence + bounded-exhaustive formula shapes',
+                text='Theorems C01_accepts_what_spec_accepts / C01_complete (Coq, no axioms): for every well-formed query (any connective depth, any number of predicates, any graph) the implementation model accepts exactly the combinations the specification semantics makes true, and candidates are the full cross product, so nothing matching is dropped. The model (Engine/Query.v) is tied to cmd.processQuery by comparing tokens, accept/reject, recovered structure, the expanded condition text byte for byte, result multisets and rows on every generated query; the direct oracle checks the implementation against the extracted specification on exhaustive formula shapes over a truth-complete project.',
+                note='expr-lang (parser + evaluator) and the ANTLR recogniser are modelled, not verified (assumption stated in Engine/Eval.v, tested on every evaluated query); fragment: string/int/bool/list accessors, == != < > <= >= in, && || !, predicate calls with alias arguments',
+                ref='DESIGN.md §5 C01'),
+    'C02': dict(technique='Coq proof (soundness, NoDup, cross-product count over the implementation model; equality with the specification) + correspondence + oracle',
+                text='Theorems C02_sound, C02_sound_spec, C02_nodup, C02_cross_product: reported combinations are entities of the graph, of the FROM kinds in FROM order, satisfying the condition; each once; without WHERE exactly the n-ary cross product (count formula). Same tie and oracle as C01 (implementation results must be a sub-multiset of the extracted specification results).',
+                note='as C01; result order is unspecified (Go map iteration): comparisons are multisets',
+                ref='DESIGN.md §5 C02'),
+    'C07': dict(technique='Coq proofs (merge order-independence; worker-pool LTS: invariant, deadlock freedom, variant, delivery, exact merge orders) + forced arrival orders through verif hooks + extracted collect',
+                text='C07_order_independent (any permutation of per-file graphs with distinct identities merges to the same entities and links), C07_no_deadlock / C07_terminates / C07_delivers over a transition system of Initialize for any number of files, workers and unreadable files. All arrival orders for <= 4 files and sampled reachable orders beyond are forced through the hooks, with jitter and GOMAXPROCS 1/2/4/16; dumps must coincide and equal the extracted collect and the union of per-file builder results; the hypothesis keys_distinct is evaluated on every project.',
+                note='partial: Go scheduler/channels/memory model are modelled by Scan/Pool.v (hand-abstracted), tied by runs only; race detector runs only in the thorough tier',
+                ref='DESIGN.md §5 C07, App. C'),
+    'C08': dict(technique='Coq proofs (collect isolation, file discovery = .java files under readable directories) + real project variants incl. permission faults as non-root',
+                text='C08_isolation (in the merged graph a file contributes exactly its own per-file graph whatever the siblings), C08_discovery, C08_unreadable_dir_hides_only_itself. Pairs (file, context) with copies, shared fragments, malformed/binary files, unreadable file/directory (scan as uid 65534), dangling symlinks and extension decoys are scanned for real and the entities of the file compared.',
+                note='partial: kernel permission semantics and symlink resolution exercised, not modelled',
+                ref='DESIGN.md §5 C08'),
+    'C10': dict(technique='Coq model total by construction (Answer | SyntaxError) + console chunking theorem + outcome-class correspondence on mutated/random strings',
+                text='process_query is a total function into {Answer, SyntaxError}: the repaired code has no abort site left in the modelled path; C10_console: the console transcript depends only on the bytes, not their chunking. Grammar-derived sentences, token mutations, unusual-but-valid queries and random strings are run against an empty and a non-empty project: any panic or process exit is a violation, and the model\'s accept/reject must agree.',
+                note='partial: panics inside ANTLR/expr-lang/cobra are outside the model; the theorem is about the model, the correspondence carries the claim to the binary',
+                ref='DESIGN.md §5 C10'),
+    'C11': dict(technique='Coq proofs (parser = inverse of printer, both directions; lexer round trip) + three-way differential (ANTLR / Coq parser / Earley over Query.g4)',
+                text='C11_accept_iff (accepted token sequences are exactly prints of grammar-shaped ASTs, returning that AST), C11_structure, C11_accepted_is_sentence, C11_unambiguous. ANTLR tokens vs the lexer model, ANTLR accept/reject vs the proved parser vs lark Earley on ANTLR\'s own tokens, on exhaustive short token strings, single-token edits and generated sentences; recovered FROM/SELECT/predicate structure compared.',
+                note='that ANTLR ALL(*) accepts L(Query.g4) is assumed and sampled; the Ast printer mirrors Query.g4 by construction (checked against Earley)',
+                ref='DESIGN.md §5 C11'),
+    'C12': dict(technique='Coq proofs over the specification semantics (and/or/not/paren, equivalence, De Morgan, double negation; totality witness) + metamorphic runs on the real engine',
+                text='C12_and (unconditional), C12_or / C12_not (under totality of A), C12_paren, C12_equiv, C12_de_morgan, C12_double_negation, with spec_or_needs_total showing why totality is needed. Eleven set-algebra laws are checked on the real engine for formulas over total atoms, including atoms outside the reference fragment.',
+                note='as C01; chained/mixed comparisons without parentheses regroup differently in expr-lang (D36) and are outside the fragment',
+                ref='DESIGN.md §5 C12'),
+    'C13': dict(technique='Coq substitution theorem (inline_seval) + emit/inline agreement + variant runs (inline, rename alias, rename formals, unused declaration, reorder)',
+                text='C13_inline: evaluating the expanded condition equals evaluating the call with formals bound to the argument entities, for arbitrary identifiers; C13_expansion_text: the emitted text is the print of the expanded AST. Query variants with colliding identifier substrings are run on the real engine and must give identical result multisets.',
+                note='as C01',
+                ref='DESIGN.md §5 C13'),
+    'C14': dict(technique='Coq proofs (lex_render, layout irrelevance of the whole pipeline) + re-layout runs',
+                text='C14_lex, C14_layout, C14_stays_valid: any two separable layouts of the same tokens are both accepted with identical results and rows. Every generated query is rendered plain, tight and with random spaces/tabs/CR/LF at every token boundary and run on the real engine.',
+                note='separable is a sufficient condition for tokens to stay apart; the lexer model is compared with ANTLR token by token',
+                ref='DESIGN.md §5 C14'),
+    'C15': dict(technique='Coq proofs (row alignment, literal items, Go JSON encoder round trip) + row oracle from the graph dump + CLI output modes',
+                text='C15_rows_aligned, C15_literal, C15_json_wellformed / _indent (decode(encode v) = v for arbitrary valid UTF-8). Rows of the real engine are recomputed from the graph dump per tuple; the real CLI is run in text/json x output-file x verbose and the location multisets compared.',
+                note='Go encoding/json is modelled (Base/Json.v, compared byte for byte with Go on 22k strings by the proof author); invalid UTF-8 snippets are replaced by U+FFFD in JSON',
+                ref='DESIGN.md §5 C15'),
+    'C16': dict(technique='state-free Coq model (history theorems by construction) + console chunking theorem + history correspondence with graph dump before/after',
+                text='C16_graph_unchanged, C16_history, C16_console_chunking. Histories mixing valid, invalid and getDoc-evaluating queries run on one loaded graph; each answer must equal the stand-alone answer and the graph dump must be unchanged; the console is fed in one write and byte by byte.',
+                note='the history theorems hold by construction of the model; state-freeness of the implementation is what the correspondence tests',
+                ref='DESIGN.md §5 C16'),
+
     'C19': dict(technique='Coq proof by computation over tables the translator regenerates from the Go sources each run + exhaustive per-kind queries',
                 text='Theorem C19_vocab: every kind in the scanner table (Type literals of visitAST) has a case in generateProxyEnv binding a distinct variable whose env entry offers toString and a further accessor. Tables are re-extracted from /repo on every run, so the finite statement is re-proved against the current source; every kind observed on a kitchen-sink family is queried through the real engine.',
                 note='translator (go/ast shape matching) trusted; expr-lang trusted to evaluate alias.accessor()',
